@@ -30,7 +30,8 @@ FORMULAS = ["a + b", "y ~ a:b", "`x y` + a", "log(a) + b", "np.exp(a) + C(A)", "
             "g(a, w=b) + c", "np.clip(a, a_min=b, a_max=c)", "y ~ g(v=a, w=c):b", "f(v=`x y`) + a",
             # names bound inside the expression (comprehension / lambda variables that are ALSO data columns), calls and attributes on expressions
             "f(np.asarray([c * 2.0 for c in a])) + b", "f(np.asarray([k + c for k, c in zip(a, b)]))", "mk(a)(b) + c", "hs[0](a) + b", "{(a + b).abs()} + c",
-            "f(np.asarray(list(map(lambda c: c + 1.0, a))))", "mk(`x y`)(b):A", "I(hs[0](c) + mk(a)(a))"]
+            "f(np.asarray(list(map(lambda c: c + 1.0, a))))", "f(np.asarray([c + k for c in a for k in (0.5,)]))", "f(np.asarray([[c * k for k in (1.0, 2.0)] for c in b]).sum(axis=1))",
+            "f(np.asarray([c for k in (1,) for c in a if c > -100]))", "mk(`x y`)(b):A", "I(hs[0](c) + mk(a)(a))"]
 
 
 def _resolution_stream(ctx: Ctx):
@@ -264,7 +265,47 @@ def _missing_stream(ctx: Ctx):
     ctx.run_cases("missing", M.IMPORTS, "", "mcase", "chk_build", lits, descr, shard=150)
 
 
+def _mutated_formulas(ctx: Ctx):
+    """required_variables describes the formula AS IT IS NOW: after any sequence of deletions, insertions and replacements of terms it equals
+    what a fresh formula with the same terms reports (also through a ModelSpec holding the formula)"""
+    from formulaic import Formula, ModelSpec
+    rng = ctx.fork("mutated-formulas")
+    pool = ["a", "b:d", "np.log(c)", "e", "f(g, h)", "a:e", "`x y`", "center(k)"]
+    for i in range(ctx.n(80, 800)):
+        f = Formula(" + ".join(rng.sample(pool, rng.randint(2, 4))))
+        hist = [repr(f)]
+        for step in range(rng.randint(2, 6)):
+            if rng.random() < 0.6:
+                _ = f.required_variables, ModelSpec(formula=f).required_variables          # read (and possibly cache)
+                hist.append("read")
+            r = rng.random()
+            try:
+                if r < 0.35 and len(f) > 1:
+                    k = rng.randrange(len(f)); del f[k]; hist.append(f"del [{k}]")
+                elif r < 0.5 and len(f) > 1:
+                    f.pop(); hist.append("pop()")
+                elif r < 0.65 and len(f) > 1:
+                    t = f[rng.randrange(len(f))]; f.remove(t); hist.append(f"remove({t!r})")
+                elif r < 0.85:
+                    t = list(Formula(rng.choice(pool)))[-1]; f.append(t); hist.append(f"append({t!r})")
+                else:
+                    t = list(Formula(rng.choice(pool)))[-1]; k = rng.randrange(len(f)); f[k] = t; hist.append(f"[{k}] = {t!r}")
+            except Exception as e:
+                hist.append(f"{type(e).__name__}")
+                continue
+            ctx.oracle_runs += 1
+            want = {str(v) for v in Formula(list(f), _ordering="none").required_variables}
+            got = {str(v) for v in f.required_variables}
+            got2 = {str(v) for v in ModelSpec(formula=f).required_variables}
+            if got != want or got2 != want:
+                ctx.fail(f"after {hist} the formula {f!r} reports the required variables {sorted(got)} (through a ModelSpec: {sorted(got2)}); its terms need {sorted(want)}",
+                         {"kind": "mutated-formula", "history": hist})
+                break
+        ctx.count("mutated-formulas", "histories")
+
+
 def run(ctx: Ctx):
+    _mutated_formulas(ctx)
     _resolution_stream(ctx)
     _dot_stream(ctx)
     _missing_stream(ctx)
